@@ -49,7 +49,7 @@ OPS = tuple(p + o for p in ("sm_", "smr_") for o in BASE_OPS)
 LEAN = ["Ymq.Props.C14Small"]
 AUDIT = "Ymq.Audit.C14Small"
 # >>>>>>>>>> PLACEHOLDER: space separated names of the theorems of namespace Ymq.C14Small (to be filled in) <<<<<<<<<<
-THEOREM_NAMES = ("rank_spec rank_profile_independent pseudoinverse_spec pseudoinverse_no_panic pseudoinverse_sound submatrix_spec pipeline_spec rank_reverse_spec inverse_spec inverse_some_iff inverse_profile_independent transpose_spec mask_spec reverse_spec symmetric_spec identity_spec genblock_never_ends genblock_accepts mul_aab_opt_spec gram_rank_le_cube genblock_never_ends_hang_rule genblock_never_ends_low_rank genblock_never_ends_witness lanczos_init_well_formed lanczos_step_no_panic_release lanczos_step_checked_orthogonal lanczos_init_invariant lanczos_step_no_panic_checked lanczos_invariant lanczos_loop_no_panic_release lanczos_loop_no_panic_unpurged lanczos_three_term_of_extended_invariant kernel_lanczos_sound kernel_lanczos_release_no_panic rank_not_greedy pseudoinverse_unmasked_counterwitness pipeline_nonsymmetric_counterwitness")
+THEOREM_NAMES = ("rank_spec rank_profile_independent pseudoinverse_spec pseudoinverse_no_panic pseudoinverse_sound submatrix_spec pipeline_spec rank_reverse_spec inverse_spec inverse_some_iff inverse_profile_independent transpose_spec mask_spec reverse_spec symmetric_spec identity_spec genblock_never_ends genblock_accepts mul_aab_opt_spec gram_rank_le_cube genblock_never_ends_hang_rule genblock_never_ends_low_rank genblock_never_ends_witness lanczos_init_well_formed lanczos_step_no_panic_release lanczos_step_checked_orthogonal lanczos_init_invariant lanczos_step_no_panic_checked lanczos_invariant lanczos_loop_no_panic_release lanczos_loop_no_panic_unpurged lanczos_three_term_of_extended_invariant lanczos_loop_no_panic lanczos_checked_assertions_hold kernel_lanczos_sound kernel_lanczos_release_no_panic rank_not_greedy pseudoinverse_unmasked_counterwitness pipeline_nonsymmetric_counterwitness")
 THEOREMS = ["Ymq.C14Small." + t for t in THEOREM_NAMES.split()]
 
 N = 64
@@ -1259,8 +1259,7 @@ UNMODELLED = [
     "the random generator of genblock (rand::thread_rng, try_fill) is an input stream of the model: its distribution, hence the probability-1 "
     "termination of genblock when rank((B^T B)^3) >= 64 and the existence of an admissible block in that case, are outside the model (the "
     "harness stops the loop after 8 draws); the number of iterations of the main loop and the verbose messages are not specified; that the "
-    "A-orthogonality assertions of the checked profile hold on every reachable state is proved as an inductive step only (the three-term property "
-    "of the purged blocks is a hypothesis; the base case is proved); the loop-level statement is sampled by K and the oracle",
+    "A-orthogonality assertions of the checked profile hold on every reachable state is PROVED (lanczos_loop_no_panic)",
     "the rotation trick of muladd (&SmallMat * &SmallMat, &Block * &SmallMat) is compared with the defining sum by sm_mul only (not proved)",
     "behaviour of pseudoinverse / submatrix / the call site outside their documented domain (input not null outside S x S, not symmetric) has "
     "no specification: the oracle accepts any answer there, K still compares it with the model in both profiles",
@@ -1303,13 +1302,14 @@ CLAIM = ("Lean theorems, for EVERY size n (the code has n = 64; n <= 256 where t
          "iteration of the checked profile reaches no panic site - all debug_assert! on A-orthogonality and on the rank hold - and the "
          "invariant holds again (lanczos_step_no_panic_checked, lanczos_invariant; matrix forms of Block::muladd, block products, masking; "
          "left inverse = right inverse on the S x S block). NOT proved: the converse of the hang rule (an admissible block exists when "
-         "rank((B^T B)^3) >= 64: classification of symmetric bilinear forms over GF(2)); for the loop-level statement the three-term "
-         "property as a consequence of the invariant (Montgomery's argument for the blocks no longer projected; the base case of the "
-         "invariant is proved: lanczos_init_invariant); loop level: the release loop with fuel never panics (lanczos_loop_no_panic_release) and "
+         "rank((B^T B)^3) >= 64: classification of symmetric bilinear forms over GF(2)). Proved further: the base case of the "
+         "invariant (lanczos_init_invariant); loop level: the release loop with fuel never panics (lanczos_loop_no_panic_release) and "
          "the checked loop never panics - all assertions of every iteration and after the loop hold - until the first state where a block "
          "is no longer projected (lanczos_loop_no_panic_unpurged); Montgomery's three-term property (the hypothesis of the checked step) follows from an extended invariant VInv "
-         "that adds the directions V_m to the history (lanczos_three_term_of_extended_invariant); NOT proved: that a step preserves VInv, so "
-         "beyond the first purge the checked loop is sampled by K on every iteration of real runs and checked pairwise by the oracle; the composed model kernelLanczos (initial block + loop + C14's final stage) returns only "
+         "that adds the directions V_m to the history (lanczos_three_term_of_extended_invariant); a step preserves VInv, hence the UNCONDITIONAL loop-level "
+         "statements: the checked loop with fuel reaches no panic site - every debug_assert! of every iteration and after the loop holds - "
+         "(lanczos_loop_no_panic) and every reachable state satisfies the classical invariant (lanczos_checked_assertions_hold); also "
+         "sampled by K on every iteration of real runs and checked pairwise by the oracle; the composed model kernelLanczos (initial block + loop + C14's final stage) returns only "
          "non-zero kernel vectors (kernel_lanczos_sound) and reaches no panic site in the release profile "
          "(kernel_lanczos_release_no_panic); its answer is K-compared with the basis returned by real runs.")
 LEVEL_NOTE = ("The theorems are about the model; the K stream ties it to the code in both profiles (sm_* against the checked build, smr_* "
